@@ -72,35 +72,46 @@ extern int mpt_color_setalpha(MPT_STRUCT(color) *col, int alpha)
  * \ingroup mptPlot
  * \brief set color
  * 
- * Convert to color data
+ * Convert to color data.
+ * Missing source or empty value select the default color.
  * 
  * \param col  color data
  * \param src  data source to use
  * 
- * \return consumed length
+ * \retval 0  default color assigned
+ * \retval 1  color assigned from source
  */
 extern int mpt_color_pset(MPT_STRUCT(color) *col, MPT_INTERFACE(convertable) *src)
 {
+	/* default color is black, no transparency */
+	static const MPT_STRUCT(color) def = MPT_COLOR_INIT;
 	const char *txt;
 	int type;
 	int len;
 	
 	if (!src) {
-		/* default color is black, no transparency */
-		static const MPT_STRUCT(color) tcol = MPT_COLOR_INIT;
-		return memcmp(&tcol, col, sizeof(*col)) ? 1 : 0;
+		*col = def;
+		return 0;
 	}
 	if ((type = mpt_color_typeid()) > 0
 	 && (len = src->_vptr->convert(src, type, col)) >= 0) {
-		return 0;
+		if (!len) {
+			*col = def;
+			return 0;
+		}
+		return 1;
 	}
 	/* parse color name/format  */
+	txt = 0;
 	if ((len = src->_vptr->convert(src, 's', &txt)) >= 0) {
-		int take;
-		if ((take = mpt_color_parse(col, txt)) < 0) {
+		if (!len || !txt || !*txt) {
+			*col = def;
+			return 0;
+		}
+		if (mpt_color_parse(col, txt) < 0) {
 			return MPT_ERROR(BadValue);
 		}
-		return 0;
+		return 1;
 	}
 	return MPT_ERROR(BadType);
 }
